@@ -17,7 +17,7 @@ package join
 //@ unfold countNonNil(s, n) = n <= 0 ? 0 : countNonNil(s, n - 1) + (s[n - 1] != nil ? 1 : 0)
 
 //@ func Join
-//@   props C13 C10 C05
+//@   props C13 C10 C05 C08
 //@   ensures countNonNil(errs, len(errs)) == 0 ==> result == nil
 //@   ensures countNonNil(errs, len(errs)) > 0 ==> typeis(result, *joinError) && len(result.(*joinError).errs) == countNonNil(errs, len(errs))
 //@   ensures countNonNil(errs, len(errs)) > 0 ==> (forall i int :: 0 <= i && i < len(errs) && errs[i] != nil ==> result.(*joinError).errs[countNonNil(errs, i)] == errs[i])
